@@ -119,17 +119,15 @@ func JSONGetNaturalLanguageField(val *fastjson.Value, prop string) NaturalLangua
 			ob.Visit(func(key []byte, v *fastjson.Value) {
 				l := LangRefValue{}
 				l.Ref = LangRef(key)
-				if err := l.Value.UnmarshalJSON(v.GetStringBytes()); err == nil {
-					if l.Ref != NilLangRef || len(l.Value) > 0 {
-						n = append(n, l)
-					}
+				l.Value = append(Content{}, v.GetStringBytes()...)
+				if l.Ref != NilLangRef || len(l.Value) > 0 {
+					n = append(n, l)
 				}
 			})
 		case fastjson.TypeString:
-			l := LangRefValue{}
-			if err := l.UnmarshalJSON(v.GetStringBytes()); err == nil {
-				n = append(n, l)
-			}
+			l := LangRefValue{Ref: NilLangRef}
+			l.Value = append(Content{}, v.GetStringBytes()...)
+			n = append(n, l)
 		}
 	}
 
